@@ -13,7 +13,8 @@ From Coq Require Import List NArith ZArith Bool.
 From Coq Require String.
 From Abasic Require Import Model.Bytes Model.Num Model.Token Model.Data Model.Lexer Gen.Tables
      Model.State Model.Eval Model.Interp Model.Analyzer Model.Web
-     Proofs.Monad Proofs.Frames Proofs.StoreProofs Proofs.ResetProofs Proofs.Safety Proofs.WebProofs.
+     Proofs.Monad Proofs.Frames Proofs.StoreProofs Proofs.ResetProofs Proofs.Safety Proofs.WebProofs
+     Proofs.LoaderProofs.
 Import ListNotations.
 Local Open Scope nat_scope.
 
@@ -43,6 +44,30 @@ Theorem C19_trap_free : forall fuel evs p,
   JInv (impl p) -> Forall (fun ev => match ev with EvLoad _ => False | _ => True end) evs ->
   safe (page_run fuel p evs).
 Proof. exact page_run_safe. Qed.
+
+(* ... and the program file loaded at start-up: a WHOLE page session under the
+   page's protocol — the file (any text) is loaded into the new page once,
+   before anything else, then any sequence of the events above — never traps
+   and never throws.  The loader submits every line that starts with a digit
+   and start_evaluating asserts an idle interpreter: the proof rests on the
+   parser/tokenizer fact that such a line is never a command and either edits
+   the program (idle), or is rejected (error latched: the loader stops) — a
+   digit run beyond u64 is an immediate line whose first token is a number,
+   which no statement starts with (Proofs/LoaderProofs.v). *)
+Theorem C19_session_trap_free : forall fuel oracle text evs,
+  Forall (fun ev => match ev with EvLoad _ => False | _ => True end) evs ->
+  safe (page_run fuel (page_new oracle) (EvLoad text :: evs)).
+Proof. exact page_session_safe. Qed.
+
+Theorem C19_loader : forall fuel lines j log,
+  JInv j -> latest_error j = None -> state (core j) = Idle ->
+  match load_lines fuel lines j log with
+  | (JOk _ j', _, true) => JInv j' /\ latest_error j' = None /\ state (core j') = Idle
+  | (JOk _ j', _, false) => JInv j'
+  | (JTrap, _, _) => False
+  | (JStuck, _, _) => True
+  end.
+Proof. exact load_lines_safe. Qed.
 
 Theorem C19_fresh_page_ok : forall oracle, JInv (impl (page_new oracle)).
 Proof. intros oracle. apply JInv_new. Qed.
@@ -103,12 +128,7 @@ Theorem C19_skeleton :
 Proof. exact skeleton_tie. Qed.
 Local Close Scope string_scope.
 
-(* The start-up loader (numbered lines are submitted until the interpreter
-   rejects one, then RUN) is part of the model and of the correspondence; that
-   it cannot trap is validated (every generated start-up file, incl. files
-   with untokenizable lines — the defect repaired in 84f17c0), not proved here:
-   it needs the lexer fact that a line starting with a digit is an edit or an
-   error.  wasm32 execution and the DOM side are outside the model. *)
+(* wasm32 execution and the DOM side are outside the model. *)
 
 (* non-vacuity: a page that loaded a 3-line program with an untokenizable line
    reports the error and stays alive; a session ticks to an INPUT, answers,
@@ -142,3 +162,5 @@ Print Assumptions C19_error_text_start.
 Print Assumptions C19_error_text_continue.
 Print Assumptions C19_new.
 Print Assumptions C19_skeleton.
+Print Assumptions C19_session_trap_free.
+Print Assumptions C19_loader.
